@@ -166,11 +166,10 @@ func (self *ProxyServerProtocol) ProcessLockResultCommandLocked(command *protoco
 		if self.serverProtocol == defaultServerProtocol {
 			if serverProtocol, ok := defaultServerProtocol.slock.clients[self.clientId]; ok {
 				defaultServerProtocol.slock.clientsGlock.Unlock()
-				err := serverProtocol.AddProxy(self)
+				// AddProxy points the proxy at the adopting connection itself, under that connection's mutex: assigning it
+				// here, after the mutex is released, would race with that connection's Close (which re-points its proxies)
+				_ = serverProtocol.AddProxy(self)
 				verifPoint(13)
-				if err == nil {
-					self.serverProtocol = serverProtocol
-				}
 				return serverProtocol.ProcessLockResultCommandLocked(command, result, lcount, lrcount, data)
 			}
 			defaultServerProtocol.slock.clientsGlock.Unlock()
@@ -1665,6 +1664,7 @@ func (self *BinaryServerProtocol) AddProxy(proxy *ProxyServerProtocol) error {
 	}
 
 	self.proxys = append(self.proxys, proxy)
+	proxy.serverProtocol = self
 	self.glock.Unlock()
 	return nil
 }
@@ -2554,6 +2554,7 @@ func (self *TextServerProtocol) AddProxy(proxy *ProxyServerProtocol) error {
 	}
 
 	self.proxys = append(self.proxys, proxy)
+	proxy.serverProtocol = self
 	self.glock.Unlock()
 	return nil
 }
